@@ -350,3 +350,97 @@ def count_live(text):
             continue
         best = max(best, len(re.findall(r'\b(?:mk|mix|inc|pick|id|cvt|fp|fpm)_\w+ \(|\(\*fp_', l)))
     return best
+
+
+# ------------------------------------------------------------------ code tie for coq/C07/CallTemps.v
+# Functions whose only frame use is the call argument area (scalar parameters and locals live in registers): the `alloca fp, N`
+# and the `add t, fp, offset` instructions of `c2m -S` must be the area size and the Alloc events the extracted model computes
+# for the same expression trees.  tree ::= ('C', type index | None, C function name, [trees]) | ('O', C format, [trees])
+def gen_tie_unit(rng, nfun=10):
+    types = rng.sample(POOL, 5)
+    L = ['typedef unsigned long u64;']
+    for i, (kind, decls, leaves, cls) in enumerate(types):
+        L.append('%s T%d { %s };' % (kind, i, ' '.join(decls)))
+        n = '%s T%d' % (kind, i)
+        L.append('extern %s f%d (u64); extern %s m%d (%s, %s); extern %s i%d (%s, u64); extern u64 s%d (%s);' % (n, i, n, i, n, n, n, i, n, i, n))
+    for i in range(len(types)):
+        for j in range(len(types)):
+            L.append('extern u64 p%d_%d (%s T%d, %s T%d);' % (i, j, types[i][0], i, types[j][0], j))
+    sizeprobe = '\n'.join(L) + '\n#include <stdio.h>\nint main (void) { printf ("%s\\n", %s); return 0; }\n' % (
+        ' '.join(['%d'] * len(types)), ', '.join('(int) sizeof (%s T%d)' % (t[0], i) for i, t in enumerate(types)))
+
+    def ae(ti, depth):
+        k = rng.random()
+        if depth <= 0 or k < 0.3:
+            return ('C', ti, 'f%d' % ti, [('O', rng.choice(['k', '7u', '(k + 2u)']), [])])
+        if k < 0.7:
+            return ('C', ti, 'm%d' % ti, [ae(ti, depth - 1), ae(ti, depth - 1)])
+        if k < 0.85:
+            return ('C', ti, 'i%d' % ti, [ae(ti, depth - 1), se(depth - 1)])
+        return ('O', '(k + 1u, %s)', [ae(ti, depth - 1)])
+
+    def se(depth):
+        k = rng.random()
+        ti = rng.randrange(len(types))
+        if depth <= 0 or k < 0.3:
+            return ('C', None, 's%d' % ti, [ae(ti, max(depth, 0))])
+        if k < 0.6:
+            tj = rng.randrange(len(types))
+            return ('C', None, 'p%d_%d' % (ti, tj), [ae(ti, depth - 1), ae(tj, depth - 1)])
+        if k < 0.75:
+            l, ct, m = rng.choice(types[ti][2])
+            return ('O', '(u64) (%%s).%s' % l, [ae(ti, depth)])
+        return ('O', '(%%s %s %%s)' % rng.choice(['+', '^', '*']), [se(depth - 1), se(depth - 1)])
+
+    funs = []
+    for fi in range(nfun):
+        body = [se(rng.choice([1, 2, 2, 3])) for _ in range(rng.randint(1, 3))]
+        L.append('u64 tie%d (u64 k) { u64 r = k; %s return r; }' % (fi, ' '.join('r ^= %s;' % render(t) for t in body)))
+        funs.append(('tie%d' % fi, body))
+    return '\n'.join(L) + '\n', sizeprobe, funs
+
+
+def render(t):
+    if t[0] == 'C':
+        return '%s (%s)' % (t[2], ', '.join(render(x) for x in t[3]))
+    return t[1] % tuple(render(x) for x in t[2]) if t[2] else t[1]
+
+
+def tie_query(body, sizes):
+    def q(t):
+        if t[0] == 'C':
+            return 'C %d %d %s' % (0 if t[1] is None else sizes[t[1]], len(t[3]), ' '.join(q(x) for x in t[3]))
+        return 'O %d %s' % (len(t[2]), ' '.join(q(x) for x in t[2]))
+    return ' ; '.join(q(t) for t in body)
+
+
+def parse_tie_mir(text):
+    """{function: (alloca size or 0, [offsets of `add t, fp, off` in code order], [(offset, size) of rblk results in call order])}"""
+    import re
+    res, cur = {}, None
+    regs = {}
+    for l in text.split('\n'):
+        m = re.match(r'^(\w+):\s+func\b', l)
+        if m:
+            cur = m.group(1)
+            res[cur] = [0, [], []]
+            regs = {}
+            continue
+        if cur is None:
+            continue
+        if re.match(r'^\s+endfunc', l):
+            cur = None
+            continue
+        m = re.match(r'^\s+alloca\s+fp,\s*(\d+)', l)
+        if m:
+            res[cur][0] = int(m.group(1))
+            continue
+        m = re.match(r'^\s+add\s+(\w+),\s*fp,\s*(\d+)', l)
+        if m:
+            res[cur][1].append(int(m.group(2)))
+            regs[m.group(1)] = int(m.group(2))
+            continue
+        m = re.match(r'^\s+(?:call|inline)\s+.*?rblk:(\d+)\((\w+)\)', l)
+        if m and m.group(2) in regs:
+            res[cur][2].append((regs[m.group(2)], int(m.group(1))))
+    return res
